@@ -15,7 +15,7 @@
    pre-assignment; `zr` = RISC-V zero rule on/off (off = x86). *)
 From Coq Require Import ZArith List Bool.
 From XV Require Import C19.Model C19.ProofsSpec C19.ProofsAlloc C19.ProofsOp C19.ProofsStep C19.ProofsMain
-                       C19.ProofsFunc C19.ProofsRefute C19.ProofsLoop C19.ProofsLoop2 C19.ProofsLoopEx C19.Enc.
+                       C19.ProofsFunc C19.ProofsRefute C19.ProofsLoop C19.ProofsLoop2 C19.ProofsLoopEx C19.ProofsLoopSem C19.Enc.
 Import ListNotations.
 Local Open Scope Z_scope.
 
@@ -351,3 +351,122 @@ Theorem C19_loop_hypotheses_satisfiable :
                zr = true /\ r = 0).
 Proof. exact loop_hypotheses_satisfiable. Qed.
 Print Assumptions C19_loop_hypotheses_satisfiable.
+
+(* ... and no result of an operation before, inside or after the loop is written into the register of a
+   value that is live after that operation; the loop header's write of the induction variable clobbers
+   nothing live in the body (same hypotheses, plus: a value is not written while a value tied to it is live). *)
+Theorem C19_no_clobber_loop : forall zr pool allow types pre f post iv cb af,
+  (zr = true -> ~ In 0 pool) -> (forall r, In r pool -> 0 <= r) ->
+  (forall v, ty0 (mkFunc types (map Simple pre ++ For f :: map Simple post)) v = None) ->
+  f_bargs f = iv :: cb ->
+  wf_prog (virt pre f post) -> io_ok (virt pre f post) ->
+  (forall o x y, In o (virt pre f post) -> In (x, y) (s_io o) ->
+     ~ In y (zconsts (mk_cfg zr (mkFunc types (map Simple pre ++ For f :: map Simple post))))) ->
+  length (f_iters f) = length cb /\ length (f_iters f) = length (f_yield f) /\ length (f_iters f) = length (f_res f) ->
+  NoDup (concat (groups f)) ->
+  (forall v, In v (iv :: cb) \/ defined_in (f_body f) v -> ~ used_in post v) ->
+  ~ In iv (concat (groups f)) ->
+  (forall v, In v (live_ins_body f) -> ~ In v (concat (groups f)) /\ v <> iv) ->
+  (forall v, In v (f_lb f :: f_ub f :: step_list f) -> ~ In v (concat (groups f)) /\ v <> iv) ->
+  (forall p s, virt pre f post = p ++ s -> forall v1 v2, live s v1 -> live s v2 -> v1 <> v2 ->
+     tconn pre f post v1 v2 -> False) ->
+  (forall p o s, virt pre f post = p ++ o :: s -> forall d v, In d (defs o) -> live s v -> d <> v ->
+     tconn pre f post d v -> False) ->
+  allocate_func zr pool allow (mkFunc types (map Simple pre ++ For f :: map Simple post)) = Ok af ->
+  (forall l1 o l2 rest, (pre = l1 ++ o :: l2 /\ rest = l2 ++ Hop f :: f_body f ++ Yop f :: post)
+                        \/ (f_body f = l1 ++ o :: l2 /\ rest = l2 ++ Yop f :: post)
+                        \/ (post = l1 ++ o :: l2 /\ rest = l2) ->
+     forall d v r, In d (defs o) -> live rest v -> d <> v -> ty af d = Some r -> ty af v = Some r ->
+       zr = true /\ r = 0)
+  /\ (forall v r, live (f_body f ++ Yop f :: post) v -> v <> iv -> ty af iv = Some r -> ty af v = Some r ->
+       zr = true /\ r = 0).
+Proof. exact func_loop_no_clobber. Qed.
+Print Assumptions C19_no_clobber_loop.
+
+(* its extra hypothesis holds for the example of C19_loop_hypotheses_satisfiable as well *)
+Theorem C19_loop_clobber_hypothesis_satisfiable :
+  forall p o s, virt ex_pre ex_f ex_post = p ++ o :: s -> forall d v, In d (defs o) -> live s v -> d <> v ->
+    tconn ex_pre ex_f ex_post d v -> False.
+Proof. exact loop_clobber_hypotheses_satisfiable. Qed.
+Print Assumptions C19_loop_clobber_hypothesis_satisfiable.
+
+(* The live-ins computed by the model of _live_ins_per_block contain every outer value the body reads (or
+   yields): so the pseudo-operation Y of the virtual block keeps exactly the right values live over the back
+   edge, i.e. the straight-line liveness of `virt` is the loop's liveness fixed point. *)
+Theorem C19_loop_live_ins_complete : forall f v,
+  (used_in (f_body f) v \/ In v (f_yield f)) -> ~ defined_in (f_body f) v -> ~ In v (f_bargs f) ->
+  In v (live_ins_body f).
+Proof. exact live_ins_complete. Qed.
+Print Assumptions C19_loop_live_ins_complete.
+
+(* Semantics of one loop iteration (the induction step for every trip count): under the hypotheses of
+   C19_no_interference_loop / C19_no_clobber_loop, with the registers assigned by allocate_func, running the
+   loop body on the register machine and on the SSA environment from states that agree on everything live
+   at the top of the body yields states that agree on everything live at the end of the body: the induction
+   variable, the body's live-ins, ub/step, the yield operands (= the next carried values, = the results) and
+   every value live after the loop; operation functions are uninterpreted. *)
+Theorem C19_semantics_loop_iteration : forall zr pool allow types pre f post iv cb af,
+  (zr = true -> ~ In 0 pool) -> (forall r, In r pool -> 0 <= r) ->
+  (forall v, ty0 (mkFunc types (map Simple pre ++ For f :: map Simple post)) v = None) ->
+  f_bargs f = iv :: cb ->
+  wf_prog (virt pre f post) -> io_ok (virt pre f post) ->
+  (forall o x y, In o (virt pre f post) -> In (x, y) (s_io o) ->
+     ~ In y (zconsts (mk_cfg zr (mkFunc types (map Simple pre ++ For f :: map Simple post))))) ->
+  length (f_iters f) = length cb /\ length (f_iters f) = length (f_yield f) /\ length (f_iters f) = length (f_res f) ->
+  NoDup (concat (groups f)) ->
+  (forall v, In v (iv :: cb) \/ defined_in (f_body f) v -> ~ used_in post v) ->
+  ~ In iv (concat (groups f)) ->
+  (forall v, In v (live_ins_body f) -> ~ In v (concat (groups f)) /\ v <> iv) ->
+  (forall v, In v (f_lb f :: f_ub f :: step_list f) -> ~ In v (concat (groups f)) /\ v <> iv) ->
+  (forall p s, virt pre f post = p ++ s -> forall v1 v2, live s v1 -> live s v2 -> v1 <> v2 ->
+     tconn pre f post v1 v2 -> False) ->
+  (forall p o s, virt pre f post = p ++ o :: s -> forall d v, In d (defs o) -> live s v -> d <> v ->
+     tconn pre f post d v -> False) ->
+  allocate_func zr pool allow (mkFunc types (map Simple pre ++ For f :: map Simple post)) = Ok af ->
+  forall (data : Type) (dzero : data) (fop : nat -> nat -> list data -> data) (env : value -> data) (rf : Z -> data),
+    (forall v, live (f_body f ++ Yop f :: post) v -> read_reg data dzero zr (asg_of af) rf v = env v) ->
+    (forall v, In v (zero_consts (pre ++ [Hop f])) -> env v = dzero) ->
+    (forall v, live (Yop f :: post) v ->
+       read_reg data dzero zr (asg_of af)
+         (exec_regs data dzero fop zr (asg_of af) (length (pre ++ [Hop f])) (f_body f) rf) v
+       = exec_ssa data dzero fop (length (pre ++ [Hop f])) (f_body f) env v)
+    /\ (forall v, In v (zero_consts ((pre ++ [Hop f]) ++ f_body f)) ->
+          exec_ssa data dzero fop (length (pre ++ [Hop f])) (f_body f) env v = dzero).
+Proof. exact func_loop_iteration. Qed.
+Print Assumptions C19_semantics_loop_iteration.
+
+(* Semantics of the WHOLE loop, for every trip count n (induction on n over the iteration step above):
+   SSA semantics `ssa_loop` of riscv_scf.for -- induction variable := lb, carried := iter operands; n times:
+   body, then induction variable := ivnext iv step, carried := yielded values; finally results := carried --
+   against the lowered loop on the register machine `regs_loop` -- mv iv <- lb ; (body ; iv <- ivnext iv step)^n,
+   the carried values and results staying in their registers (no moves: that is what the lowering emits).
+   If the two states agree on everything live before the loop, they agree on everything live after it, the
+   loop results included; operation functions and the induction-variable update are uninterpreted.
+   (C19/ProofsLoopSem.v: ssa_loop, regs_loop.) *)
+Theorem C19_semantics_loop : forall zr pool allow types pre f post iv cb af,
+  (zr = true -> ~ In 0 pool) -> (forall r, In r pool -> 0 <= r) ->
+  (forall v, ty0 (mkFunc types (map Simple pre ++ For f :: map Simple post)) v = None) ->
+  f_bargs f = iv :: cb ->
+  wf_prog (virt pre f post) -> io_ok (virt pre f post) ->
+  (forall o x y, In o (virt pre f post) -> In (x, y) (s_io o) ->
+     ~ In y (zconsts (mk_cfg zr (mkFunc types (map Simple pre ++ For f :: map Simple post))))) ->
+  length (f_iters f) = length cb /\ length (f_iters f) = length (f_yield f) /\ length (f_iters f) = length (f_res f) ->
+  NoDup (concat (groups f)) ->
+  (forall v, In v (iv :: cb) \/ defined_in (f_body f) v -> ~ used_in post v) ->
+  ~ In iv (concat (groups f)) ->
+  (forall v, In v (live_ins_body f) -> ~ In v (concat (groups f)) /\ v <> iv) ->
+  (forall v, In v (f_lb f :: f_ub f :: step_list f) -> ~ In v (concat (groups f)) /\ v <> iv) ->
+  (forall p s, virt pre f post = p ++ s -> forall v1 v2, live s v1 -> live s v2 -> v1 <> v2 ->
+     tconn pre f post v1 v2 -> False) ->
+  (forall p o s, virt pre f post = p ++ o :: s -> forall d v, In d (defs o) -> live s v -> d <> v ->
+     tconn pre f post d v -> False) ->
+  allocate_func zr pool allow (mkFunc types (map Simple pre ++ For f :: map Simple post)) = Ok af ->
+  forall (data : Type) (dzero : data) (fop : nat -> nat -> list data -> data) (ivnext : data -> data -> data)
+         (n : nat) (env : value -> data) (rf : Z -> data),
+    (forall v, live (Hop f :: f_body f ++ Yop f :: post) v -> read_reg data dzero zr (asg_of af) rf v = env v) ->
+    (forall v, In v (zero_consts (pre ++ [Hop f])) -> env v = dzero) ->
+    forall v, live post v ->
+      read_reg data dzero zr (asg_of af) (regs_loop data dzero fop ivnext zr (asg_of af) pre f iv n rf) v
+      = ssa_loop data dzero fop ivnext pre f iv cb n env v.
+Proof. exact func_loop_semantics. Qed.
+Print Assumptions C19_semantics_loop.
